@@ -100,6 +100,8 @@ structure StoredFacts (C : Ref → Bytes) (env : PackEnv) (tbl : List Chunk) (wh
     s'.d = s.d ∧
     s'.large = (putLarge s zr (buildZip l f.written f.schemaBlobs whole wsz n)).large
   mono : LargeMono s s'
+  /-- every blob of the stored zip has a `b:` row afterwards -/
+  rows : ∀ z, get s'.large zr = some z → ∀ p ∈ zipBlobRows zr z, (get s'.b p.1).isSome = true
 
 theorem writeAZip_stored {C : Ref → Bytes} (env : PackEnv) (nameOK : Bool) (tbl : List Chunk) (whole : Ref) (wsz : Nat)
     (s : St) (bud : Budget) (remain : List Ref) (n wbw : Nat) (trunc : Option Ref) (lay : Option ZipLayout)
@@ -155,7 +157,7 @@ theorem writeAZip_stored {C : Ref → Bytes} (env : PackEnv) (nameOK : Bool) (tb
                       unfold putLarge; split <;> rfl
                     have hpd : (putLarge s l.ref (buildZip l f.written f.schemaBlobs whole wsz n)).d = s.d := by
                       unfold putLarge; split <;> rfl
-                    refine ⟨⟨l, f, e3.symm, e6.symm, e7.symm, e4.symm, e5.symm, ?_, fun p hp => (hwr p hp).1, by omega, hlay', ?_, ?_, hwf, ?_, ?_, ?_, ?_⟩, ?_⟩
+                    refine ⟨⟨l, f, e3.symm, e6.symm, e7.symm, e4.symm, e5.symm, ?_, fun p hp => (hwr p hp).1, by omega, hlay', ?_, ?_, hwf, ?_, ?_, ?_, ?_⟩, ?_, ?_⟩
                     · rw [← e4]; exact fill_written_prefix _ _ _ _ _ _ f hf
                     · intro he
                       cases hleg : env.c.legacy with
@@ -169,6 +171,17 @@ theorem writeAZip_stored {C : Ref → Bytes} (env : PackEnv) (nameOK : Bool) (tb
                     · intro k0 z0 hk
                       rw [hfields.1, hl1]
                       exact largeMono_putLarge s l.ref _ k0 z0 hk
+                    · intro z hz p hp
+                      have hgz : get s'.large zr = some (buildZip l f.written f.schemaBlobs whole wsz n) := by
+                        rw [← e3, hfields.1, hl1]; exact get_putLarge_self s l.ref _ hcoll'
+                      rw [hgz] at hz
+                      injection hz with hz
+                      subst hz
+                      rw [hfields.2.1]
+                      simp only [commitZip, isSome_get_setRows]
+                      have : (zipBlobRows l.ref (buildZip l f.written f.schemaBlobs whole wsz n)).any (fun q => q.1 == p.1) = true := by
+                        rw [List.any_eq_true]; exact ⟨p, by rw [e3]; exact hp, by simp⟩
+                      simp [this]
 
 theorem writeAZip_fail_mono (env : PackEnv) (nameOK : Bool) (tbl : List Chunk) (whole : Ref) (wsz : Nat)
     (s : St) (bud : Budget) (remain : List Ref) (n wbw : Nat) (trunc : Option Ref) (lay : Option ZipLayout)
